@@ -1,6 +1,6 @@
 /* rb_drv.c - ringbuf.c under the vrt interleaving runtime (C05, C07).
  * Context 1 = producer, context 0 = consumer; programs given on the Reset line:
- *   Reset len start np (kind d)*np nc (kind)*nc     kind: 0 put, 1 putchar / 0 get, 1 empty
+ *   Reset len start np (kind d)*np nc (kind)*nc     kind: 0 put, 1 putchar, 2 empty / 0 get, 1 empty
  *   S c          context c executes its next atomic operation
  *   Gen seed nexec irq */
 #define _GNU_SOURCE
@@ -23,6 +23,10 @@ static void producer(void *arg)
 		if (pk[i] == 0) {
 			bool ok = ringbuf_put(rb, (uint8_t)pd[i]);
 			vrt_note("put", ok);
+		} else if (pk[i] == 2) {
+			/* the query is role-neutral: a producer asks "was the ring idle? has everything been taken?" */
+			bool e = ringbuf_empty(rb);
+			vrt_note("empty", e);
 		} else {
 			/* ringbuf_putchar's retry loop, spelled out so each attempt is visible */
 			ringbuf_putchar(rb, (char)pd[i]);
@@ -80,9 +84,10 @@ static void reset(void)
 	vrt_region("ring", ring, len, 1, 2);
 	vrt_region("guard", area, GUARD, GUARD, 0);
 	vrt_region("guard", ring + len, GUARD, GUARD, 0);
+	vrt_region("rb_other", rb, sizeof(*rb), sizeof(*rb), 0);     /* whatever else the descriptor holds (first match wins: listed last) */
 	printf("{\"e\":\"Reset\",\"g\":{\"len\":%d,\"start\":%d,\"pp\":[", len, start);
 	for (int i = 0; i < np; i++)
-		printf("%s{\"k\":\"%s\",\"d\":%d}", i ? "," : "", pk[i] ? "putchar" : "put", pd[i]);
+		printf("%s{\"k\":\"%s\",\"d\":%d}", i ? "," : "", pk[i] == 2 ? "empty" : pk[i] ? "putchar" : "put", pk[i] == 2 ? 0 : pd[i]);
 	printf("],\"cp\":[");
 	for (int i = 0; i < nc; i++)
 		printf("%s\"%s\"", i ? "," : "", ck[i] ? "empty" : "get");
@@ -143,7 +148,7 @@ static void gen(long seed, int nexec, int irq)
 		start = drv_below(len);
 		np = 1 + drv_below(10);
 		nc = 1 + drv_below(12);
-		for (int i = 0; i < np; i++) { pk[i] = drv_below(4) == 0; pd[i] = drv_below(3) ? bytes[drv_below(8)] : (int)drv_below(256); }
+		for (int i = 0; i < np; i++) { pk[i] = drv_below(4) == 0; if (drv_below(6) == 0) pk[i] = 2; pd[i] = drv_below(3) ? bytes[drv_below(8)] : (int)drv_below(256); }
 		for (int i = 0; i < nc; i++) ck[i] = drv_below(4) == 0;
 		reset();
 		int top = -1, started[2] = { 0, 0 };
